@@ -255,6 +255,16 @@ def ev(S, F, x, asg, tabs=None):
                             sub3.pop("subst", None)
                             return run(S3, F, S3.paths(), sub3, tabs)
                     if isinstance(f, tuple) and f and f[0] == "fn":
+                        # a handler for this function, else the function's own body (a local fn item used as a callback)
+                        for key_, fn_ in (asg.get("calls") or {}).items():
+                            if f[1] == key_ or f[1].endswith(key_):
+                                return fn_(a)
+                        cb_ = F.fn(f[1])
+                        if cb_ is not None and cb_.mir is not None and asg.get("_depth", 0) < 4 and not asg.get("no_inline"):
+                            S3 = sym.Sym(cb_)
+                            sub3 = dict(asg, params={1: a}, _depth=asg.get("_depth", 0) + 1)
+                            sub3.pop("subst", None)
+                            return run(S3, F, S3.paths(), sub3, tabs)
                         return ("app", f[1], a)
                     return ("app", f, a)
                 def apply0(f):
